@@ -177,7 +177,7 @@ pub fn run(tier: Tier) -> Report {
     let fails: Vec<Failure> = items
         .par_iter()
         .enumerate()
-        .filter(|(i, it)| i % step == 0 || it.family == "G1-whole-programs" || it.family == "stmt@else-chains")
+        .filter(|(i, it)| i % step == 0 || progs::always_included(it.family) || it.family == "stmt@else-chains")
         .flat_map_iter(|(i, it)| {
             let pr = print_program(&it.program);
             let mut out = vec![];
@@ -195,7 +195,7 @@ pub fn run(tier: Tier) -> Report {
             // a comment in every single gap of the focus declaration (also inside parameters,
             // types, expressions): whatever the formatter does with it, formatting its own
             // output again must not change anything
-            if i % (4 * step) == 0 || it.family == "G1-whole-programs" {
+            if i % (4 * step) == 0 || progs::always_included(it.family) {
                 for g in crate::checks::c04::focus_gaps(&pr, it.focus_decl) {
                     let r = render(&pr.toks, Layout::Spaces, &[g], &|g| format!(" c{}", g));
                     evals.fetch_add(2, Ordering::Relaxed);
